@@ -246,8 +246,8 @@ def build(family, seed):
             return Circ(family, seed, hw, [a, b])
         if family == 'clk2':
             # several clock domains: a named ClockDriver on a structural sub-block, registers below it (2-3 levels).
-            # Register widths differ between domains, so that no structureName()-shared Reg module spans two domains
-            # (that collision is a Verilog-consistency matter of another property, not of this one).
+            # Register widths differ between the fast and the derived domains; two sibling derived domains may share a Reg<w>
+            # module once Reg modules have a fixed clock port name (probed below).
             rst = hw.wire('reset'); one = hw.wire('one'); pq = hw.wire('pq', 2); tick = hw.wire('tick')
             py4hw.Constant(hw, 'reset', 0, rst); py4hw.Constant(hw, 'one', 1, one)
             py4hw.ModuloCounter(hw, 'presc', rng.choice([3, 4]), rst, one, pq, tick)        # fast domain: Reg2...
@@ -260,7 +260,10 @@ def build(family, seed):
                 slow.inner.clockDriver.base = slow.clockDriver
             if variant == 2:                                                                  # a second derived domain, sibling
                 t2 = hw.wire('tick2'); py4hw.Not(hw, 'ntick', tick, t2)
-                d3 = hw.wire('d3', ws + 2); q3 = hw.wire('q3', ws + 2); z3 = hw.wire('z3', ws + 2)
+                import py4hw.rtl_generation as R_
+                # with a fixed clock port name on Reg modules (repo 3ea2d5c) one Reg<w> module may serve two domains: exercise it
+                w3 = ws if (hasattr(R_, 'getClockPortName') and rng.random() < .5) else ws + 2
+                d3 = hw.wire('d3', w3); q3 = hw.wire('q3', w3); z3 = hw.wire('z3', w3)
                 other = U['Pipe'](hw, 'other', d3, q3, z3)
                 other.clockDriver = py4hw.ClockDriver('clk_other', base=hw.clockDriver, wire=t2, enable=t2)
                 return Circ(family, seed, hw, [d, d3])
@@ -409,7 +412,11 @@ def dump_node(gen, R, obj, tk):
     if obj.getParameterNames() is not None:
         raise NotDumpable('parameters')
     sn = 'Some %d' % tk(obj.structureName()) if has_method(obj, 'structureName') else 'None'
-    clk = 'Some %d' % tk(getObjectClockDriver(obj).name) if gen.anyClockableDescendant(obj) else 'None'
+    # name of the implicit clock PORT of obj's module: the model takes it as data of the node.  Probe: since repo commit 3ea2d5c the
+    # generator has getClockPortName(obj) ('clk' for Reg modules, which are shared across clock domains, else the domain's driver
+    # name); before it, the header used the driver name directly.  The dump follows whichever the code under test has.
+    clkname = R.getClockPortName(obj) if hasattr(R, 'getClockPortName') else getObjectClockDriver(obj).name
+    clk = 'Some %d' % tk(clkname) if gen.anyClockableDescendant(obj) else 'None'
     ports = []
     for p in obj.inPorts + obj.outPorts + obj.inOutPorts:
         if p.wire is None:
